@@ -21,7 +21,7 @@ SimpleValidator::decode_commitment_tx,
 Channel::sign_counterparty_commitment_tx       (phase 1)     `phase1`
 Channel::sign_counterparty_commitment_tx_phase2 (phase 2)    `phase2`
 InMemorySigner::sign_counterparty_commitment, build_htlc_transaction   `htlcTxs`
-ECDSA signature over the BIP143 sighash                      `Crypto.sign key (Crypto.sighash tx)` (abstract)
+ECDSA signature over the BIP143 sighash                      `Crypto.sign key (Crypto.sighash tx amount)` (abstract)
 validate_channel_value, claimable_balances,
   validate_counterparty_commitment_tx                        `Env.chanOk`, `Env.pre`   (abstract: C05's subject)
 validate_payments, set_next_counterparty_commit_num          `Env.post`                (abstract)
@@ -415,7 +415,9 @@ structure Env where
   htlcKey : Key
 
 structure Crypto (H M S : Type) where
-  sighash : CTx H → M
+  /-- BIP143 sighash of the commitment: commits to the transaction *and* to the amount of the spent
+      funding output (the negotiated channel value) -/
+  sighash : CTx H → Nat → M
   htlcSighash : HtlcTx H → M
   sign : Key → M → S
 
@@ -438,7 +440,7 @@ def phase1 [DecidableEq H] (env : Env) (s : Setup) (k : Keys) (tx : CTx H) (ws :
         | some rtx =>
           if rtx ≠ tx ∧ env.mismatchIsError then .error .mismatch   -- policy-commitment "recomposed tx mismatch"
           else
-            let sig := cr.sign env.fundingKey (cr.sighash rtx)   -- signs the *recomposed* tx
+            let sig := cr.sign env.fundingKey (cr.sighash rtx s.channelValue)   -- signs the *recomposed* tx, amount = setup.channel_value_sat
             if !env.post commitNum info2 then .error .policy
             else .ok sig
 
@@ -456,12 +458,30 @@ def phase2 (env : Env) (s : Setup) (k : Keys) (c : Content) : Except Kind (S × 
         let hts := htlcTxs wsh okey s k c rtx
         if hts.any (fun t => t.value.isNone) then .error .internal   -- catch_panic! → "failed to sign"
         else
-          let sig := cr.sign env.fundingKey (cr.sighash rtx)
+          let sig := cr.sign env.fundingKey (cr.sighash rtx s.channelValue)   -- amount = the signer keys' channel value (= setup's)
           let hsigs := hts.map fun t => cr.sign env.htlcKey (cr.htlcSighash t)
           if !env.post c.commitNum info2 then .error .policy
           else .ok (sig, hsigs)
 
 end
+
+/-! ## Restart
+
+`Node::new_from_persistence` rebuilds a channel from its `ChannelEntry`: the stored `ChannelSetup` and the
+stored `channel_value_satoshis` (from which the `InMemorySigner` — and with it the amount phase 2 puts into
+the BIP143 sighash — is re-derived).  Both copies of the channel value are written from the same setup, so
+persist-then-restore is the identity on `Setup`. -/
+
+structure ChannelEntry where
+  setup : Setup
+  /-- `channel_value_satoshis`: what the restored signer keys are derived with -/
+  channelValueSat : Nat
+deriving DecidableEq, Repr
+
+def persistChannel (s : Setup) : ChannelEntry := ⟨s, s.channelValue⟩
+
+/-- the setup a restored channel signs with: the signer keys' amount comes from `channel_value_satoshis` -/
+def restoreChannel (e : ChannelEntry) : Setup := { e.setup with channelValue := e.channelValueSat }
 
 /-! ## Dust thresholds of `validate_commitment_tx` (policy-commitment-outputs-trimmed)
 
